@@ -360,7 +360,8 @@ func runC02(c c02Case) *Violation {
 				if strings.ContainsRune(tok, 0) {
 					continue // a NUL cannot travel in the NUL-terminated cookie field
 				}
-				r := sess.Run(c.Kind, gwc.Target{Addr: inp().Addr}, [][]byte{tsgu.Handshake(1, 0, 0, caps), tsgu.TunnelCreate(tok, true), tsgu.Handshake(0, 0, 0, caps)})
+				// the client carries on regardless of the answer: a refusal must be the end of the tunnel
+				r := sess.Run(c.Kind, gwc.Target{Addr: inp().Addr}, [][]byte{tsgu.Handshake(1, 0, 0, caps), tsgu.TunnelCreate(tok, true), tsgu.TunnelAuth("pc"), tsgu.Handshake(0, 0, 0, caps)})
 				resps, err := sess.Decode(r.Pkts)
 				if err != nil || len(resps) < 2 || resps[1].Type != tsgu.PktTunnelResponse {
 					return viol("c02/no-tunnel-response", "step %d: no tunnel response: %v %v", i, err, resps)
@@ -368,6 +369,12 @@ func runC02(c c02Case) *Violation {
 				accepted = resps[1].Status == 0
 				if !accepted && resps[1].Status != tsgu.ErrCookieDenied {
 					return viol("c02/refusal-status", "step %d: cookie refused with status %#x, want cookie-access-denied", i, resps[1].Status)
+				}
+				if !accepted && (len(resps) != 2 || !r.Ended) {
+					return viol("c02/tunnel-continues-after-refusal", "step %d: token kind %s was refused, yet the tunnel went on (ended=%v): the packets sent after the refusal were answered with %v", i, st.Tok.Kind, r.Ended, resps[2:])
+				}
+				if accepted && (len(resps) < 3 || resps[2].Type != tsgu.PktTunnelAuthResponse || resps[2].Status != 0) {
+					return viol("c02/accepted-but-not-usable", "step %d: token kind %s was accepted but tunnel authorization did not follow: %v", i, st.Tok.Kind, resps)
 				}
 			}
 			desc := fmt.Sprintf("step %d: token kind %s (%+v) -> reference %s (%s), gateway accepted=%v; token=%q", i, st.Tok.Kind, st.Tok, verdict, reason, accepted, shorten(tok))
